@@ -310,8 +310,22 @@ int reader_init_block_reader(struct reftable_reader *r, struct block_reader *br,
 		}
 	}
 
-	return block_reader_init(br, &block, header_off, r->block_size,
-				 hash_size(r->hash_id));
+	err = block_reader_init(br, &block, header_off, r->block_size,
+				hash_size(r->hash_id));
+	while (err == REFTABLE_ZLIB_ERROR && block_typ == BLOCK_TYPE_LOG &&
+	       next_off + block.len < r->size) {
+		/* The block size of a log block is its inflated size; the
+		 * compressed data can be longer than that (and than the
+		 * table's block size). Read more and try again. */
+		uint32_t len = 2 * block.len;
+		reftable_block_done(&block);
+		err = reader_get_block(r, &block, next_off, len);
+		if (err < 0)
+			return err;
+		err = block_reader_init(br, &block, header_off, r->block_size,
+					hash_size(r->hash_id));
+	}
+	return err;
 }
 
 static int table_iter_next_block(struct table_iter *dest,
